@@ -4,6 +4,9 @@ CONSTANTS
   MaxLen = 2
   Alphabet3 = {"a","sp","sq","us"}
   MaxLen3 = 3
+  Leaders = {"a","us","hash","semi","dollar","lbr","data_","loop_"}
+  Features = {"sp","tab","sq","dq"}
+  ShapesF = {"s2b","l2a","l2d","mlc"}
   FileShapes = {"sand"}
   Shapes = {"s1","s2a","s2b","l1a","l1b","l2a","l2b","l2c","l2d","mlc","l2m","s2m"}
   NameAlphabet = {"a","sq","dq","us","hash","semi","dollar","lbr","qm","data_","loop_","save_"}
